@@ -152,6 +152,9 @@ class SurfaceMesh(Mesh):
     
     def _compute_interior_boundary_vertices(self):
         self._boundary_vertices = set()
+        # recomputed from scratch: an attribute already carrying the name (user data, data read from a file) must not leak
+        # into the flags when config.display_duplicate_attribute_warning makes create_attribute hand it back
+        self.vertices.delete_attribute("border")
         self._is_vertex_on_border = self.vertices.create_attribute("border", bool)
         for e in self.boundary_edges:
             a,b = self.edges[e]
